@@ -108,10 +108,10 @@ def c11(tier):
     mc(v, wd, "MaxT = 3 MaxId = 3 MaxSteps = 1 MaxExt = 2\n Menu <- MenuSmall Seed = TRUE Starts = {0, 2} Limits <- LimitsAll", "limits")
     if tier == "quick":
         gen_replay(v, wd, tier, "C11", "MaxT = 2 MaxId = 3 MaxSteps = 1 MaxExt = 1\n Menu <- MenuSmall Seed = TRUE Starts = {0} Limits <- LimitsAll", 8,
-                   "all programs x 15 limit trees")
+                   "all programs x 20 limit trees")
     else:
         gen_replay(v, wd, tier, "C11", "MaxT = 3 MaxId = 4 MaxSteps = 1 MaxExt = 2\n Menu <- MenuSmall Seed = TRUE Starts = {0, 2} Limits <- LimitsAll", 10,
-                   "all programs x 15 limit trees x start times")
+                   "all programs x 20 limit trees x start times")
     v.cov["rule"] = ("every program in the bound under each of 15 limit trees (None, EventCount, SimTime, nested And/Or; also built by "
                      "Builder::max_itr/max_time): handled prefix, end time, event_count and the (id,time) multiset of remaining events")
     v.cov["exhaustive"] = True
